@@ -205,10 +205,10 @@ PROPS = {
         assumptions=["fewer than 32 undrained events"],
     ),
     "C03": dict(
-        theorems=["HC.C03.accept_commits", "HC.C03.accepted_events", "HC.C03.honest_block_accepted", "HC.C03.honest_first_upgrade_accepted", "HC.C03.sync_first_contact", "HC.C03.sync_invariant", "HC.C03.sync_progress", "HC.C03.replica_converges", "HC.C03.replica_grows", "HC.C03.replica_reopens", "HC.C03.cleared_block_no_proof", "HC.C03.created_block_value", "HC.C03.honest_block_with_upgrade_accepted", "HC.C03.block_with_upgrade_applied", "HC.C03.honest_blockgrowth_is_writers", "HC.C03.honest_new_block_with_upgrade_accepted", "HC.C03.new_block_with_upgrade_applied", "HC.C03.next_block_with_upgrade_applied", "HC.C03.honest_growth_is_writers", "HC.C03.honest_hash_is_writers", "HC.C03.honest_block_is_writers", "HC.C03.missing_nodes_spec", "HC.C03.writer_answers", "HC.C03.block_accepted"],
+        theorems=["HC.C03.accept_commits", "HC.C03.accepted_events", "HC.C03.honest_block_accepted", "HC.C03.honest_first_upgrade_accepted", "HC.C03.sync_first_contact", "HC.C03.sync_invariant", "HC.C03.sync_progress", "HC.C03.replica_converges", "HC.C03.replica_grows", "HC.C03.replica_reopens", "HC.C03.cleared_block_no_proof", "HC.C03.created_block_value", "HC.C03.honest_block_with_upgrade_accepted", "HC.C03.block_with_upgrade_applied", "HC.C03.honest_blockgrowth_is_writers", "HC.C03.honest_new_block_with_upgrade_accepted", "HC.C03.new_block_with_upgrade_applied", "HC.C03.honest_newblock_is_writers", "HC.C03.next_block_with_upgrade_applied", "HC.C03.honest_growth_is_writers", "HC.C03.honest_hash_is_writers", "HC.C03.honest_block_is_writers", "HC.C03.missing_nodes_spec", "HC.C03.writer_answers", "HC.C03.block_accepted"],
         bridge_modules=["HC.Bridge.Oplog", "HC.Bridge.Stores", "HC.Bridge.Order"], bridging=OPLOG_BRIDGE + STORES_BRIDGE + ORDER_BRIDGE,
         runs=_c03_runs,
-        partial="proved: honest block exchange (the replica's missing_nodes count, the writer's create_valueless_proof, the block bytes) is accepted by verify_proof on every sparse replica of the log, for every log/writer state/replica state/index; the first-contact upgrade (the writer's answer to 'upgrade from 0 to your length' = its reference roots + signature, accepted by a replica that knows nothing yet, which adopts exactly the writer's roots, length and fork: honest_first_upgrade_accepted); the exchange is closed under its own effects at tree level (sync_first_contact, sync_invariant, sync_progress: after first contact and any number of block exchanges in any order, each answered by create_valueless_proof, checked by verify_proof and committed, the replica is again a sparse replica at the writer's length with the writer's roots and fork, and the exchange for every block succeeds again - it never gets stuck); at CORE level (replica_converges): from a replica that knows nothing, the writer's upgrade answer and then its block answers for any list of indices in any order with repetitions are each applied by verify_and_apply_proof with answer true - verification, byte offset under the replica's own sparse tree, data write, oplog entry, bitfield, tree commit, periodic flush - and afterwards the replica reports the writer's length and byte length, every fetched block reads back byte-identical to the writer's block and every other index reads as not held (invariant Replica.RepR with a closed sparse tree); the same with GROWTH ROUNDS (replica_grows): after first contact at any length the replica plays any list of acts - upgrade to the writer's current, larger length (the answer is the greedy decomposition of [m,n) into aligned blocks; inside the first new root verify_upgrade's grow loop merges upwards like a binary counter) fetch block i below its current length, and ask for the hash of any full tree node inside its current length, in any order - every act is answered true and at the end it reports the last length and byte length and serves exactly the fetched blocks byte-identical; once verified and commitable a proof is always applied, with exactly the prescribed events. ACROSS RESTARTS, from creation (replica_reopens): the replica is created by Hypercore::new over empty stores from the public key alone, and among the acts the stores may be closed and reopened (Hypercore::new without key pair) any number of times - every reopen succeeds without writing, replays the oplog entries since the last flush to exactly the live header, tree and bitfield (ghost invariant ReplicaReopen.PersistR next to RepRAt; truncate finds the upgraded roots among the entry's nodes and the store), and the final statement is the same. The proofs used are the writer's own answers (honest_block_is_writers, honest_hash_is_writers, honest_growth_is_writers, honest_blockgrowth_is_writers). Not proved (validated by the run): proofs with seek sections, upgrades to less than the writer's length (additional nodes), that the reference proof for a block of the new part + upgrade is literally the writer's create_valueless_proof answer (proved for the other shapes); (block+upgrade in one proof is proved for EVERY block: new_block_with_upgrade_applied - a block m <= i < n of the new part: the block's subtree root is one node of the honest position list, left out of the upgrade section, recomputed by the block climb and taken from verify_upgrade's extra slot exactly when its turn comes (honest_new_block_with_upgrade_accepted); the byte offset is computed under the changeset's node list - the block's path followed by the upgrade's nodes - and its new roots (offset_new_block); for a block below the replica's length together with an upgrade, honest_block_with_upgrade_accepted proves acceptance by verify_proof and block_with_upgrade_applied the whole application at core level: byte offset computed under the merged roots, data write, the single entry carrying nodes+upgrade+bitfield, commit, replay of that entry on reopen, the invariants again) - a block the writer does not hold (cleared) yields no proof, never a wrong one, and a created block proof carries exactly what get returns (cleared_block_no_proof, created_block_value) - every honest proof in every request order, partial upgrades, seeks, hash sweeps, replica reopen, cleared blocks must be accepted by crate and model and the replica must converge",
+        partial="proved: honest block exchange (the replica's missing_nodes count, the writer's create_valueless_proof, the block bytes) is accepted by verify_proof on every sparse replica of the log, for every log/writer state/replica state/index; the first-contact upgrade (the writer's answer to 'upgrade from 0 to your length' = its reference roots + signature, accepted by a replica that knows nothing yet, which adopts exactly the writer's roots, length and fork: honest_first_upgrade_accepted); the exchange is closed under its own effects at tree level (sync_first_contact, sync_invariant, sync_progress: after first contact and any number of block exchanges in any order, each answered by create_valueless_proof, checked by verify_proof and committed, the replica is again a sparse replica at the writer's length with the writer's roots and fork, and the exchange for every block succeeds again - it never gets stuck); at CORE level (replica_converges): from a replica that knows nothing, the writer's upgrade answer and then its block answers for any list of indices in any order with repetitions are each applied by verify_and_apply_proof with answer true - verification, byte offset under the replica's own sparse tree, data write, oplog entry, bitfield, tree commit, periodic flush - and afterwards the replica reports the writer's length and byte length, every fetched block reads back byte-identical to the writer's block and every other index reads as not held (invariant Replica.RepR with a closed sparse tree); the same with GROWTH ROUNDS (replica_grows): after first contact at any length the replica plays any list of acts - upgrade to the writer's current, larger length (the answer is the greedy decomposition of [m,n) into aligned blocks; inside the first new root verify_upgrade's grow loop merges upwards like a binary counter) fetch block i below its current length, and ask for the hash of any full tree node inside its current length, in any order - every act is answered true and at the end it reports the last length and byte length and serves exactly the fetched blocks byte-identical; once verified and commitable a proof is always applied, with exactly the prescribed events. ACROSS RESTARTS, from creation (replica_reopens): the replica is created by Hypercore::new over empty stores from the public key alone, and among the acts the stores may be closed and reopened (Hypercore::new without key pair) any number of times - every reopen succeeds without writing, replays the oplog entries since the last flush to exactly the live header, tree and bitfield (ghost invariant ReplicaReopen.PersistR next to RepRAt; truncate finds the upgraded roots among the entry's nodes and the store), and the final statement is the same. The proofs used are the writer's own answers (honest_block_is_writers, honest_hash_is_writers, honest_growth_is_writers, honest_blockgrowth_is_writers, honest_newblock_is_writers). Not proved (validated by the run): proofs with seek sections, upgrades to less than the writer's length (additional nodes); (block+upgrade in one proof is proved for EVERY block: new_block_with_upgrade_applied - a block m <= i < n of the new part: the block's subtree root is one node of the honest position list, left out of the upgrade section, recomputed by the block climb and taken from verify_upgrade's extra slot exactly when its turn comes (honest_new_block_with_upgrade_accepted); the byte offset is computed under the changeset's node list - the block's path followed by the upgrade's nodes - and its new roots (offset_new_block); for a block below the replica's length together with an upgrade, honest_block_with_upgrade_accepted proves acceptance by verify_proof and block_with_upgrade_applied the whole application at core level: byte offset computed under the merged roots, data write, the single entry carrying nodes+upgrade+bitfield, commit, replay of that entry on reopen, the invariants again) - a block the writer does not hold (cleared) yields no proof, never a wrong one, and a created block proof carries exactly what get returns (cleared_block_no_proof, created_block_value) - every honest proof in every request order, partial upgrades, seeks, hash sweeps, replica reopen, cleared blocks must be accepted by crate and model and the replica must converge",
         rule="writer histories (appends, batches, clears, reopen) x replica request orders {block i with nodes from missing_nodes, hash of a tree node, seek, upgrade to any length in (replica, writer]} incl. partial upgrades with additional nodes, several growth rounds, replica reopen; create_proof output (every node, size, hash, signature), acceptance, journals and probes compared with the Lean model; oracle: accepted, replica bytes = writer bytes, length = writer's length at the upgrade. distinct = distinct transcripts",
         trusted=REPL_TRUSTED,
     ),
